@@ -12,6 +12,7 @@ import (
 
 	"github.com/grailbio/bigslice/exec"
 	"github.com/grailbio/bigslice/frame"
+	"github.com/grailbio/bigslice/slicefunc"
 	"github.com/grailbio/bigslice/slicetype"
 	"verifh/ev"
 )
@@ -32,7 +33,32 @@ func (p prefixedType) Prefix() int { return p.prefix }
 var (
 	typInt    = reflect.TypeOf(int(0))
 	typString = reflect.TypeOf("")
+	typPN     = reflect.TypeOf(PN{})
 )
+
+// PN is a pointer-free struct value: a row value +v is {Pos: v}, -v is {Neg: v}; the
+// fold is the field-wise sum. gob omits zero-valued struct fields, so such values
+// expose any reuse of decode buffers that are not zeroed.
+type PN struct{ Pos, Neg int }
+
+const pnShift = 20
+
+var pnFunc = func() slicefunc.Func {
+	f, ok := slicefunc.Of(func(a, b PN) PN { return PN{a.Pos + b.Pos, a.Neg + b.Neg} })
+	if !ok {
+		panic("slicefunc.Of")
+	}
+	return f
+}()
+
+func pnOf(v int) PN {
+	if v >= 0 {
+		return PN{Pos: v}
+	}
+	return PN{Neg: -v}
+}
+
+func pnEnc(p PN) int { return p.Pos<<pnShift + p.Neg }
 
 // kind describes one key universe.
 type kind struct {
@@ -45,6 +71,13 @@ type kind struct {
 	read func(f frame.Frame) ([]kv, []int)
 	less func(x, y kv) bool
 	str  func(k kv) string
+	// value column: comb is the (commutative, associative) combine function; a row value
+	// v (+1/-1/...) is stored as mk decides and read back ENCODED as an int such that the
+	// encoding of a fold is the sum of the encodings (int values: identity; struct{Pos,Neg}
+	// values: Pos<<20 + Neg). enc maps a row value to its encoding, vstr prints one.
+	comb slicefunc.Func
+	enc  func(v int) int
+	vstr func(e int) string
 
 	// chosen at start:
 	keys  []kv
@@ -152,7 +185,41 @@ func newKinds() []*kind {
 		},
 		str: func(k kv) string { return fmt.Sprintf("(%d,%d)", k.a, k.b) },
 	}
-	return []*kind{intKind, strKind, pairKind}
+	for _, kd := range []*kind{intKind, strKind, pairKind} {
+		kd.comb = addFunc
+		kd.enc = func(v int) int { return v }
+		kd.vstr = func(e int) string { return fmt.Sprint(e) }
+	}
+	// int keys with pointer-free struct values (combiner level only)
+	pnKind := &kind{
+		name: "int-keys+struct-values",
+		typ:  slicetype.New(typInt, typPN),
+		cand: intKind.cand,
+		mk: func(keys []kv, vals []int) frame.Frame {
+			ks := make([]int, len(keys))
+			vs := make([]PN, len(keys))
+			for i, k := range keys {
+				ks[i], vs[i] = k.a, pnOf(vals[i])
+			}
+			return frame.Slices(ks, vs)
+		},
+		read: func(f frame.Frame) ([]kv, []int) {
+			ks := f.Interface(0).([]int)
+			vs := f.Interface(1).([]PN)
+			out := make([]kv, len(ks))
+			ev := make([]int, len(ks))
+			for i, k := range ks {
+				out[i], ev[i] = kv{a: k}, pnEnc(vs[i])
+			}
+			return out, ev
+		},
+		less: intKind.less,
+		str:  intKind.str,
+		comb: pnFunc,
+		enc:  func(v int) int { return pnEnc(pnOf(v)) },
+		vstr: func(e int) string { return fmt.Sprintf("{Pos:%d Neg:%d}", e>>pnShift, e&(1<<pnShift-1)) },
+	}
+	return []*kind{intKind, strKind, pairKind, pnKind}
 }
 
 // realHashes returns the table's hash of each key, computed by the real frame code.
